@@ -360,6 +360,9 @@ var TabPrograms = []string{
 	"T%| take%1.5",
 	"T | where%f(%",
 	"T%| project a = not(%1, 2)",
+	// multi-byte characters ahead of the reported position on its line: a byte-counted column falls off the line
+	"T%| where s == '€€€€€€' and%not(1, 2)",
+	"T%| where s == \"žluťoučký kůň €€\" and%)",
 }
 
 // H_C10tab: error positions under arbitrary space/tab/newline layout (tab stops every 8 columns).
